@@ -117,52 +117,68 @@ def line_seek(ctx):
         return [bad("shape", "the line seek of ReMatcher::matches must be one loop around one Iterator::find", b.loc())]
     h = hs[0]
     d = {}
+
+    def cv(s):
+        """conversions between usize and isize erased (the seek was transliterated with a signed cursor and -1 for
+        "no newline"; an unsigned cursor with Option says the same), sums written 1 + x"""
+        s = _sh(strip_ver(s))
+        prev = None
+        while prev != s:
+            prev = s
+            s = re.sub(r"Result::unwrap\(<T as TryInto<U>>::try_into\(((?:[^()]|\((?:[^()]|\((?:[^()]|\((?:[^()]|\([^()]*\))*\))*\))*\))*)\)\)", r"\1", s)
+        return s
+
     for p in ctx.walk(b, start_bb=h).paths:
         gs, r = summarize(p)
-        gs = [_sh(strip_ver(g)) for g in gs]
+        gs = [cv(g) for g in gs]
         loc = b.loc(p.blocks[-1])
-        cs = _calls(p)
+        cs = [(c[0], [cv(x) for x in c[1]]) + tuple(c[2:]) for c in _calls(p)]
         sk = [c for c in cs if c[0] == "Iterator::skip"]
         if len(sk) != 1:
             _rec(d, "skip", False, "the seek must skip exactly to the previous line start", loc)
             continue
         arg = sk[0][1][1]
-        _rec(d, "skip-from-line-start", re.match(r"^Result::unwrap\(<T as TryInto<U>>::try_into\(uninit\(\d+\)\)\)$", arg) is not None and sk[0][1][0] == "Iterator::enumerate(a1.search)", "the newline search must start at the previous line start itself (skip(nl)), over search.iter().enumerate(); found skip(%s, %s)" % (sk[0][1][0][:40], arg[:80]), loc)
+        _rec(d, "skip-from-line-start", re.match(r"^uninit\(\d+\)$", arg) is not None and sk[0][1][0] == "Iterator::enumerate(a1.search)", "the newline search must start at the previous line start itself (skip(nl)), over search.iter().enumerate(); found skip(%s, %s)" % (sk[0][1][0][:40], arg[:80]), loc)
         fd = [c for c in cs if c[0] == "Iterator::find"]
         _rec(d, "find-forward", len(fd) == 1 and "rev" not in " ".join(x[0] for x in cs), "the newline search must run forward", loc)
-        # new nl = index + 1 ; exits.  (`find(..).map(..).unwrap_or(-1) + 1` reads as a match on the result of find)
         fv = [g for g in gs if g.startswith("variant(Iterator::find(")]
         if not fv:
             _rec(d, "find-result-tested", False, "the result of the newline search is not examined", loc)
             continue
+        ma = [g for g in gs if g.lstrip("!").startswith("match_at(")]
         if fv[0].endswith("=None"):
-            _rec(d, "no-newline", r == "false" and not [g for g in gs if g.lstrip("!").startswith("match_at(")], "when no further newline exists the search must end with false", loc)
+            _rec(d, "no-newline", r == "false" and not ma, "when no further newline exists the search must end with false", loc)
             continue
         FIND = fv[0][len("variant("):-len(")=Some")]
-        NL = None
-        for g in gs:
-            m = re.match(r"^!?lt\((add\(.*\)), Result::unwrap\(<T as TryInto<U>>::try_into\(len\(a1\.search\)\)\)\)$", g)
-            if m and "Iterator::find(" in m.group(1):
-                NL = m.group(1)
-        if NL is None:
-            _rec(d, "bounds-test", False, "the new line start is not compared with the input length", loc)
-            continue
-        IDX = "Result::unwrap(<T as TryInto<U>>::try_into(%s as Some.0.0))" % FIND
-        _rec(d, "next-line-start", NL in ("add(1, %s)" % IDX, "add(%s, 1)" % IDX), "the next line start must be (index of the newline) + 1; found %s" % NL[:80], loc)
-        inside = "lt(%s, Result::unwrap(<T as TryInto<U>>::try_into(len(a1.search))))" % NL
-        ma = [g for g in gs if g.lstrip("!").startswith("match_at(")]
-        if ("!" + inside) in gs:
-            _rec(d, "at-or-past-end", r == "false" and not ma, "a line start at or beyond the end of input must end the search with false ('^' does not match after a final newline)", loc)
-        elif inside in gs:
-            pos = "lt(0, %s)" % NL
-            if ("!" + pos) in gs:
-                _rec(d, "no-newline", r == "false" and not ma, "when no further newline exists the search must end with false", loc)
+        IDX = "%s as Some.0.0" % FIND
+        NLS = ("add(1, %s)" % IDX, "add(%s, 1)" % IDX)
+        bt = [(g, nl) for g in gs for nl in NLS if g.lstrip("!") == "lt(%s, len(a1.search))" % nl]
+        if not bt:
+            other = [g for g in gs if re.match(r"^!?lt\(.*, len\(a1\.search\)\)$", g) and "Iterator::find(" in g]
+            if other:
+                _rec(d, "next-line-start", False, "the next line start must be (index of the newline) + 1; found %s" % other[0][:120], loc)
             else:
-                _rec(d, "try-line-start", bool(ma) and ma[-1].lstrip("!") == "match_at(a1, Result::unwrap(<T as TryInto<U>>::try_into(%s)), false)" % NL, "match_at must be tried at the new line start; found %s" % (ma[-1][:100] if ma else None), loc)
-                if ma and not ma[-1].startswith("!"):
-                    _rec(d, "true-on-match", r == "true", "a match at a line start must answer true", loc)
-                if ma and ma[-1].startswith("!"):
-                    _rec(d, "continue", p.end.startswith("loop"), "after a failed attempt the seek must continue with the following line", loc)
+                _rec(d, "bounds-test", False, "the new line start is not compared with the input length", loc)
+            continue
+        g0, NL = bt[0]
+        _rec(d, "next-line-start", True, "", loc)
+        if g0.startswith("!"):
+            _rec(d, "at-or-past-end", r == "false" and not ma, "a line start at or beyond the end of input must end the search with false ('^' does not match after a final newline)", loc)
+            continue
+        if ("!lt(0, %s)" % NL) in gs:
+            # the signed form's "no newline" (index -1, plus 1)
+            _rec(d, "no-newline", r == "false" and not ma, "when no further newline exists the search must end with false", loc)
+            continue
+        _rec(d, "try-line-start", bool(ma) and ma[-1].lstrip("!") == "match_at(a1, %s, false)" % NL, "match_at must be tried at the new line start; found %s" % (ma[-1][:100] if ma else None), loc)
+        if ma and not ma[-1].startswith("!"):
+            _rec(d, "true-on-match", r == "true", "a match at a line start must answer true", loc)
+        if ma and ma[-1].startswith("!"):
+            _rec(d, "continue", p.end.startswith("loop"), "after a failed attempt the seek must continue with the following line", loc)
+            # ... from that line start: the cursor the next search skips to is the position just tried
+            m_ = re.match(r"^uninit\((\d+)\)$", arg)
+            if m_ and p.end.startswith("loop"):
+                nv = p.env.get(int(m_.group(1)))
+                _rec(d, "continue", nv is not None and cv(render(nv)) == NL, "after a failed attempt the next search must start at the line start just tried; the cursor becomes %s" % (cv(render(nv))[:100] if nv is not None else None), loc)
     # the two closures: find tests == '\n' (NEWLINE-CONST), map returns the index
     return _emit(d)
 
@@ -761,6 +777,18 @@ def _stack_base_counted(b):
     return len(good) == 1
 
 
+def _greedy_stack_canon(s):
+    """The greedy iterator's stack is two parallel vectors (iterators, positions) or one vector of entries
+    {matches, position}; the clauses are stated over the former vocabulary, the latter is read into it."""
+    if "a1.iterations" not in s and "GreedyIteration" not in s:
+        return s
+    s = re.sub(r"GreedyIteration::GreedyIteration\{matches: (.*), position: [^{}]*\}$", r"\1", s)
+    s = s.replace("Option::unwrap(last_mut(a1.iterations)).matches", "Option::unwrap(last_mut(a1.iterations))")
+    s = s.replace("last_mut(a1.iterations) as Some.0.matches", "last_mut(a1.iterations) as Some.0")
+    s = re.sub(r"^Option::Some\{0: last\(a1\.iterations\) as Some\.0\.position\}$", "last(a1.positions)", s)
+    return s.replace("a1.iterations", "a1.iterators")
+
+
 @rule("REPEAT-ITER", ["C06", "C01", "C02", "C20", "C16", "C12"], floor=8)
 def repeat_iter(ctx):
     """Repeat::matches_iter: the priming loop and the iterator stack are bounded by min(max, remaining+1) (the
@@ -779,14 +807,14 @@ def repeat_iter(ctx):
         if p.end != "return":
             continue
         gs, r = summarize(p)
-        gs = [_sh(strip_ver(g)) for g in gs]
-        r = _sh(strip_ver(r))
+        gs = [_greedy_stack_canon(_sh(strip_ver(g))) for g in gs]
+        r = _greedy_stack_canon(_sh(strip_ver(r)))
         loc = b.loc(p.blocks[-1])
         if r == "empty()":
             continue
         inner = r[len("ForceProgressIterator::new("):-1] if r.startswith("ForceProgressIterator::new(") and r.endswith(")") else r
         greedy = "a1.greedy" in gs
-        cs = _calls(p)
+        cs = [(c[0], [_greedy_stack_canon(x) for x in c[1]]) + tuple(c[2:]) for c in _calls(p)]
         if greedy:
             _rec(d, "greedy-iterator", inner.startswith("GreedyRepeatIterator::new(a2, a1.operation, "), "greedy repeat must be driven by GreedyRepeatIterator(matcher, child, ...); found %s" % r[:80], loc)
             mb = re.search(r", (Ord::m(?:ax|in)\(.*\)|[^,()]+), a1\.min\)$", inner)
@@ -832,7 +860,7 @@ def repeat_iter(ctx):
     else:
         for h, blocks in gb.natural_loops().items():
             # the extension loop: the one whose turns begin with the test of the stack against the bound
-            rp = [(p, [strip_ver(g) for g in summarize(p)[0]]) for p in ctx.walk(gb, start_bb=h, max_visits=1).paths]
+            rp = [(p, [_greedy_stack_canon(strip_ver(g)) for g in summarize(p)[0]]) for p in ctx.walk(gb, start_bb=h, max_visits=1).paths]
             if not rp or not all(gs and gs[0].lstrip("!") == "lt(len(a1.iterators), a1.bound)" for _, gs in rp):
                 continue
             for p, gs in rp:
@@ -842,8 +870,8 @@ def repeat_iter(ctx):
                 _rec(d, "greedy|extension-stops-only-at-bound-or-failure", stop, "after backtracking the greedy repeat stops adding iterations although the stack is below its bound and the iteration matched (guards %s)" % gs[:3], gb.loc(p.blocks[-1]))
         for p in checked(d, "greedy-repeat-next", gb, ctx.walk(gb, max_visits=1).paths, only=lambda p: p.end == "return"):
             gs, r = summarize(p)
-            gs = [strip_ver(g) for g in gs]
-            r = strip_ver(r)
+            gs = [_greedy_stack_canon(strip_ver(g)) for g in gs]
+            r = _greedy_stack_canon(strip_ver(r))
             loc = gb.loc(p.blocks[-1])
             if p.end != "return":
                 continue
@@ -854,12 +882,12 @@ def repeat_iter(ctx):
                 _rec(d, "greedy|yield-top-position", r in ("Option::copied(last(a1.positions))", "last(a1.positions)"), "the greedy repeat must yield the top of its position stack; found %s" % r[:80], loc)
         # a further iteration is started only while the stack is below its bound, from the position just reached
         for bb, t_, rr in call_sites(gb, lambda r: r.endswith("::matches_iter")):
-            g = [strip_ver(x) for x in guard_strings(gb, bb, ctx.senv(gb))]
+            g = [_greedy_stack_canon(strip_ver(x)) for x in guard_strings(gb, bb, ctx.senv(gb))]
             _rec(d, "greedy|extension-bounded", "lt(len(a1.iterators), a1.bound)" in g, "GreedyRepeatIterator::next starts a further iteration without testing the stack against its bound (guards %s)" % g[-3:], gb.loc(bb))
         # pops only after the top iterator is exhausted
         for bb, t, rr in call_sites(gb, lambda r: r.endswith("::pop")):
             g = guard_strings(gb, bb, ctx.senv(gb))
-            if strip_ver(show(ctx.senv(gb).operand(t["args"][0]))) == "a1.iterators":
+            if _greedy_stack_canon(strip_ver(show(ctx.senv(gb).operand(t["args"][0])))) == "a1.iterators":
                 _rec(d, "greedy|pop-after-exhaustion", any(x.endswith("=None") and "next(" in x for x in g), "an iterator is popped from the greedy stack before it is exhausted", gb.loc(bb))
     out = _emit(d)
     for i_ in out:
